@@ -402,12 +402,6 @@ func (c *Ctx) TraceCheck(module, cfg string, events []any, o TLCOpts) (rejectAt 
 	if res.TimedOut {
 		return 0, "", res, fmt.Errorf("trace validation timed out")
 	}
-	for _, l := range res.Lines {
-		if strings.HasPrefix(l, "REJECT ") {
-			n, _ := strconv.Atoi(strings.TrimPrefix(l, "REJECT "))
-			return n, "", res, nil
-		}
-	}
 	if res.Violated != "" && res.Violated != "postcondition" {
 		// Position = value of l in the last state of the error trace.
 		at := 0
@@ -419,6 +413,12 @@ func (c *Ctx) TraceCheck(module, cfg string, events []any, o TLCOpts) (rejectAt 
 			}
 		}
 		return at, res.Violated, res, nil
+	}
+	for _, l := range res.Lines {
+		if strings.HasPrefix(l, "REJECT ") {
+			n, _ := strconv.Atoi(strings.TrimPrefix(l, "REJECT "))
+			return n, "", res, nil
+		}
 	}
 	if res.Violated == "postcondition" {
 		return -1, "", res, fmt.Errorf("postcondition violated without REJECT line:\n%s", tail(res.Output, 2000))
